@@ -73,7 +73,7 @@ Notation "'do' x <- r ; k" := (bind r (fun x => k)) (at level 200, x pattern, r 
 (* Correspondence support: indices (as N) at which the model's observation
    differs from the implementation's.  The comparison happens inside Coq. *)
 Section Mismatch.
-  Context {C O : Type} (run : C -> O) (eqb : O -> O -> bool).
+  Context {C M O : Type} (run : C -> M) (eqb : M -> O -> bool).
   Fixpoint mismatches_from (i : N) (cs : list C) (es : list O) : list N :=
     match cs, es with
     | c :: cs', e :: es' =>
